@@ -127,10 +127,13 @@ func c11Body(t *testing.T, sc c11Scenario) (func(), *c11Obs) {
 }
 
 func c11Sequential(t *testing.T, c *vkit.Check) {
-	// alphabet: O CreateOffer, A CreateAnswer, X full exchange as offerer (pool answer), Y full exchange as answerer (pool offer)
+	// alphabet: O CreateOffer, A CreateAnswer, X full exchange as offerer (pool answer), Y full exchange as answerer
+	// (pool offer); and the halves of an exchange on their own, so that a description can be applied after a
+	// newer one of the other type was created: R SetRemoteDescription(pool offer), S SetRemoteDescription(pool
+	// answer), P SetLocalDescription(last created offer), Q SetLocalDescription(last created answer)
 	offer, answer := vpPool(t)
-	depth := c.Pick(4, 6)
-	alpha := []byte("OAXY")
+	depth := c.Pick(5, 6)
+	alpha := []byte("OAXYRSPQ")
 	seqs := vkit.AllSequences(len(alpha), 1, depth)
 	c.Set("sequential_histories", len(seqs))
 	vkit.Parallel(len(seqs), func(i int) {
@@ -150,6 +153,7 @@ func c11Sequential(t *testing.T, c *vkit.Check) {
 			gens = append(gens, g)
 		}
 		hist := ""
+		var lastOffer, lastAnswer *SessionDescription
 		for k, idx := range seqs[i] {
 			op := alpha[idx]
 			hist += string(op)
@@ -158,9 +162,31 @@ func c11Sequential(t *testing.T, c *vkit.Check) {
 			case 'O':
 				d, err := x.CreateOffer(nil)
 				rec(who, d, err)
+				if err == nil {
+					lastOffer = &d
+				}
 			case 'A':
 				d, err := x.CreateAnswer(nil)
 				rec(who, d, err)
+				if err == nil {
+					lastAnswer = &d
+				}
+			case 'R':
+				if x.SignalingState() == SignalingStateStable {
+					_ = x.SetRemoteDescription(SessionDescription{Type: SDPTypeOffer, SDP: offer})
+				}
+			case 'S':
+				if x.SignalingState() == SignalingStateHaveLocalOffer {
+					_ = x.SetRemoteDescription(SessionDescription{Type: SDPTypeAnswer, SDP: answer})
+				}
+			case 'P':
+				if lastOffer != nil && x.SignalingState() == SignalingStateStable {
+					_ = x.SetLocalDescription(*lastOffer)
+				}
+			case 'Q':
+				if lastAnswer != nil && x.SignalingState() == SignalingStateHaveRemoteOffer {
+					_ = x.SetLocalDescription(*lastAnswer)
+				}
 			case 'X':
 				if x.SignalingState() != SignalingStateStable {
 					continue
